@@ -799,7 +799,7 @@ func c23Generate(q *c23Runner, thorough bool) {
 	sigA := []byte{0x05, 0x01, 0x00, 0x02, 0x03, 0x04, 0xff}
 	LA := 5
 	if thorough {
-		LA = 7
+		LA = 8
 	}
 	var rec func(grid string, prefix []byte, sig []byte, depth int, auth int)
 	rec = func(grid string, prefix []byte, sig []byte, depth int, auth int) {
@@ -821,7 +821,7 @@ func c23Generate(q *c23Runner, thorough bool) {
 	sigB := []byte{0x05, 0x01, 0x00, 0x03, 0x04, 0x50}
 	LB := 6
 	if thorough {
-		LB = 8
+		LB = 9
 	}
 	rec("B", []byte{5, 1, 0}, sigB, LB, 0)
 	rec("B", c23Cat([]byte{5, 1, 2}, c23Cred), sigB, LB-1, 1)
@@ -970,8 +970,8 @@ func TestVerif_C23(t *testing.T) {
 	} else {
 		c23Generate(q, thorough)
 		q.flush()
-		r.Info["alphabet_length_bound_A"] = vmc.Pick(r, 5, 7)
-		r.Info["alphabet_length_bound_B"] = vmc.Pick(r, 6, 8)
+		r.Info["alphabet_length_bound_A"] = vmc.Pick(r, 5, 8)
+		r.Info["alphabet_length_bound_B"] = vmc.Pick(r, 6, 9)
 		r.Info["read_splits"] = vmc.Pick(r, "whole, byte-at-a-time, every 2-way split", "whole, byte-at-a-time, every 2-way and 3-way split")
 	}
 	// stray goroutines (UDP read loops, monitors) must drain; wait on the count, not on time alone
